@@ -5,6 +5,15 @@ model) and a Python copy of the node table (numbering of harness/pat.cpp)."""
 
 NAMES = ["a", "b", "c", "d", "x", "y", "z", "p", "q", "foo"]
 NID = {n: i for i, n in enumerate(NAMES)}
+NSID = {"p": 1, "q": 2}          # prefix -> namespace id (p = urn:p, q = urn:q); 0 = no namespace
+
+
+def nid(name):
+    """expanded name -> 16 * namespace id + local id (the coding of coq/PatDefs.v)"""
+    if ":" in name:
+        pre, loc = name.split(":", 1)
+        return 16 * NSID[pre] + NID[loc]
+    return NID[name]
 
 # ------------------------------------------------------------------------------------------------
 # documents:  ('e', name, [(attr, value)], [children]) | ('t', s) | ('c', s) | ('p', target, data)
@@ -13,7 +22,7 @@ NID = {n: i for i, n in enumerate(NAMES)}
 def gen_elem(r, depth, maxch, enames, p_same):
     name = r.choice(enames)
     attrs = []
-    for a in ("x", "y", "z"):
+    for a in ("x", "y", "z") + (("p:x",) if any(":" in e for e in enames) else ()):
         if r.random() < 0.3:
             attrs.append((a, r.choice(["1", "2", "v"])))
     r.shuffle(attrs)
@@ -50,7 +59,7 @@ def count_nodes(t):
 def gen_doc(r, big=False):
     cap = 45 if not big else 90
     while True:
-        enames = r.choice([["a", "b"], ["a", "b", "c"], ["a", "a", "b", "c", "d"], ["a"]])
+        enames = r.choice([["a", "b"], ["a", "b", "c"], ["a", "a", "b", "c", "d"], ["a"], ["a", "p:a", "b"], ["a", "p:a", "p:b", "b"]])
         depth = r.choice([2, 3, 3, 4, 5] if not big else [4, 5, 6])
         maxch = r.choice([2, 3, 3] if not big else [3, 4])
         top = []
@@ -58,7 +67,10 @@ def gen_doc(r, big=False):
             top.append(("c", "top"))
         if r.random() < 0.12:
             top.append(("p", "p", "d"))
-        top.append(gen_elem(r, depth, maxch, enames, r.choice([0.0, 0.3, 0.6])))
+        el = gen_elem(r, depth, maxch, enames, r.choice([0.0, 0.3, 0.6]))
+        if any(":" in e for e in enames):      # the prefix is declared once, on the document element
+            el = ("e", el[1], [("xmlns:p", "urn:p")] + el[2], el[3])
+        top.append(el)
         if r.random() < 0.1:
             top.append(("c", "end"))
         if sum(count_nodes(t) for t in top) <= cap:
@@ -106,7 +118,7 @@ def arena(top):
                 first[0] = False
                 nodes.append(("n", None, me))
             for a, _ in t[2]:
-                nodes.append(("a", a, me))
+                nodes.append(("n", None, me) if a.startswith("xmlns") else ("a", a, me))
             for c in t[3]:
                 go(c, me)
         elif t[0] == "t":
@@ -123,7 +135,7 @@ def arena(top):
 def arena_tokens(nodes):
     out = []
     for k, name, par in nodes:
-        out.append("%s%s:%s" % (k, NID[name] if name is not None else "", "-" if par is None else par))
+        out.append("%s%s:%s" % (k, nid(name) if name is not None else "", "-" if par is None else par))
     return "%d %s" % (len(nodes), " ".join(out))
 
 
@@ -155,13 +167,17 @@ def test_text(t):
         return "processing-instruction()"
     if t[0] == "Q":
         return "processing-instruction('%s')" % t[1]
+    if t[0] == "S":
+        return t[1] + ":*"
     return t[1]
 
 
 def test_tok(t):
     if isinstance(t, str):
         return t
-    return ("n%d" if t[0] == "n" else "Q%d") % NID[t[1]]
+    if t[0] == "S":
+        return "S%d" % NSID[t[1]]
+    return ("n%d" if t[0] == "n" else "Q%d") % nid(t[1])
 
 
 def pred_text(p, top=True):
@@ -205,7 +221,7 @@ def pred_tok(p):
     if k == "posmod":
         return "posmod %d %d" % (p[1], p[2])
     if k == "hasattr":
-        return "hasattr %d" % NID[p[1]]
+        return "hasattr %d" % nid(p[1])
     if k in ("haschild", "count", "parent"):
         return "%s %s" % (k, test_tok(p[1]))
     if k == "not":
@@ -307,6 +323,18 @@ def g3_ok(path):
 # --- generators
 
 def gen_test(r, axis, enames):
+    t = gen_test0(r, axis, enames)
+    # namespaces: prefix:local, prefix:* (q is bound in the pattern but never used in a document)
+    if any(":" in e for e in enames) or r.random() < 0.05:
+        k = r.random()
+        if k < 0.12:
+            return ("S", "p" if r.random() < 0.85 else "q")
+        if k < 0.3 and not isinstance(t, str) and t[0] == "n" and ":" not in t[1]:
+            return ("n", ("p:" if r.random() < 0.85 else "q:") + t[1])
+    return t
+
+
+def gen_test0(r, axis, enames):
     k = r.random()
     if axis == "a":
         if k < 0.55:
